@@ -105,18 +105,19 @@ type sim struct {
 	rec   reconciler.Reconciler[*RObj]
 	t0    time.Time
 
-	mu        sync.Mutex
-	target    map[uint64]uint64 // simulated target: id -> payload
-	attempts  []Attempt
-	writes    []userWrite
-	touches   []userWrite       // status-only writes by the second reconciler
-	model     map[uint64]uint64 // id -> payload of the latest user write (absent = deleted)
-	modelRev  map[uint64]uint64 // id -> revision of the latest user write
-	r2done    map[uint64]uint64 // id -> payload for which the second reconciler set Done
-	extra     []*extraRec       // further real reconcilers
-	gateMu    sync.Mutex
-	gate      chan struct{} // non-nil while a user transaction holds the table lock across virtual time
-	inflight  int           // goroutines between wtxn.beforeLock and wtxn.afterLock
+	mu       sync.Mutex
+	target   map[uint64]uint64 // simulated target: id -> payload
+	attempts []Attempt
+	writes   []userWrite
+	touches  []userWrite       // status-only writes by the second reconciler
+	model    map[uint64]uint64 // id -> payload of the latest user write (absent = deleted)
+	modelRev map[uint64]uint64 // id -> revision of the latest user write
+	r2done   map[uint64]uint64 // id -> payload for which the second reconciler set Done
+	extra    []*extraRec       // further real reconcilers
+	gateMu   sync.Mutex
+	gate     chan struct{}   // non-nil while a user transaction holds the table lock across virtual time
+	inflight map[uint64]bool // goroutines between wtxn.beforeLock and wtxn.afterLock (by goroutine id: a goroutine that passed
+	// beforeLock before the hook was installed must not be counted down)
 	mainGID   uint64
 	holds     int
 	bound     time.Duration
@@ -276,14 +277,15 @@ func goid() uint64 {
 func (s *sim) hook(point, handle string) {
 	switch point {
 	case "wtxn.beforeLock":
-		if goid() == s.mainGID {
+		id := goid()
+		if id == s.mainGID {
 			return
 		}
 		for {
 			s.gateMu.Lock()
 			g := s.gate
 			if g == nil {
-				s.inflight++
+				s.inflight[id] = true
 				s.gateMu.Unlock()
 				return
 			}
@@ -291,11 +293,12 @@ func (s *sim) hook(point, handle string) {
 			<-g
 		}
 	case "wtxn.afterLock":
-		if goid() == s.mainGID {
+		id := goid()
+		if id == s.mainGID {
 			return
 		}
 		s.gateMu.Lock()
-		s.inflight--
+		delete(s.inflight, id)
 		s.gateMu.Unlock()
 	}
 }
@@ -306,7 +309,7 @@ func (s *sim) openGate() {
 	s.gateMu.Unlock()
 	for {
 		s.gateMu.Lock()
-		n := s.inflight
+		n := len(s.inflight)
 		s.gateMu.Unlock()
 		if n == 0 {
 			return
@@ -905,7 +908,13 @@ func Run(t *testing.T, r *vkit.Run, idx int, cfg Config) {
 	defer stop()
 	synctest.Test(t, func(t *testing.T) {
 		s := &sim{r: r, idx: idx, rng: r.Rand(idx), opRng: r.Rand(idx, 7), cfg: cfg, fp: vkit.NewHash(), target: map[uint64]uint64{}, model: map[uint64]uint64{},
-			modelRev: map[uint64]uint64{}, r2done: map[uint64]uint64{}, t0: time.Now()}
+			modelRev: map[uint64]uint64{}, r2done: map[uint64]uint64{}, t0: time.Now(), inflight: map[uint64]bool{}}
+		if cfg.HoldLock {
+			// installed before anything of this run can request a table lock
+			s.mainGID = goid()
+			statedb.SetVerifHook(s.hook)
+			defer statedb.SetVerifHook(nil)
+		}
 		for i := 0; i < cfg.Extra; i++ {
 			s.extra = append(s.extra, &extraRec{s: s, name: fmt.Sprintf("r%d", 3+i), target: map[uint64]uint64{}, rng: r.Rand(idx, uint64(8+i))})
 		}
@@ -983,11 +992,6 @@ func Run(t *testing.T, r *vkit.Run, idx int, cfg Config) {
 				t.Errorf("hive stop: %v", err)
 			}
 		}()
-		if cfg.HoldLock {
-			s.mainGID = goid()
-			statedb.SetVerifHook(s.hook)
-			defer statedb.SetVerifHook(nil)
-		}
 		s.logf("config %+v", cfg)
 		initAtPhase := s.rng.IntN(cfg.Phases + 1)
 		var waiters sync.WaitGroup
